@@ -54,6 +54,58 @@ def same_data(a, b):
     return a == b
 
 
+def other_models_in_this_process(rng):
+    """quantizes 1-2 small unrelated models whose data path is INTEGER (int32 tensors through shape-changing operators and MEAN) with a
+    shipped static-range recipe; results and errors are ignored"""
+    from ai_edge_litert import schema_py_generated as s
+    for _ in range(rng.randint(1, 2)):
+        g = gm.G()
+        g.subgraph()
+        kind = rng.choice(["TRANSPOSE", "RESHAPE", "MEAN", "STRIDED_SLICE", "SPLIT"])
+        x = g.tensor("ix", [2, 4], gm.TT.INT32)
+        f = g.tensor("fx", [2, 4])
+        fo = g.tensor("fy", [2, 4])
+        g.op(gm.BO.TANH, [f], [fo])
+        if kind == "TRANSPOSE":
+            perm = g.tensor("perm", [2], gm.TT.INT32, data=np.array([1, 0], dtype=np.int32))
+            y = g.tensor("iy", [4, 2], gm.TT.INT32)
+            g.op(gm.BO.TRANSPOSE, [x, perm], [y], gm.OPT.TransposeOptions, s.TransposeOptionsT())
+        elif kind == "RESHAPE":
+            sh = g.tensor("shape", [2], gm.TT.INT32, data=np.array([4, 2], dtype=np.int32))
+            y = g.tensor("iy", [4, 2], gm.TT.INT32)
+            ro = s.ReshapeOptionsT()
+            ro.newShape = [4, 2]
+            g.op(gm.BO.RESHAPE, [x, sh], [y], gm.OPT.ReshapeOptions, ro)
+        elif kind == "MEAN":
+            ax = g.tensor("axis", [1], gm.TT.INT32, data=np.array([1], dtype=np.int32))
+            y = g.tensor("iy", [2], gm.TT.INT32)
+            mo = s.ReducerOptionsT()
+            mo.keepDims = False
+            g.op(gm.BO.MEAN, [x, ax], [y], gm.OPT.ReducerOptions, mo)
+        elif kind == "STRIDED_SLICE":
+            b = g.tensor("begin", [2], gm.TT.INT32, data=np.array([0, 0], dtype=np.int32))
+            e = g.tensor("end", [2], gm.TT.INT32, data=np.array([2, 2], dtype=np.int32))
+            st = g.tensor("strides", [2], gm.TT.INT32, data=np.array([1, 1], dtype=np.int32))
+            y = g.tensor("iy", [2, 2], gm.TT.INT32)
+            g.op(gm.BO.STRIDED_SLICE, [x, b, e, st], [y], gm.OPT.StridedSliceOptions, s.StridedSliceOptionsT())
+        else:
+            ax = g.tensor("axis", [], gm.TT.INT32, data=np.array(1, dtype=np.int32))
+            y = g.tensor("iy", [2, 2], gm.TT.INT32)
+            y2 = g.tensor("iy2", [2, 2], gm.TT.INT32)
+            so = s.SplitOptionsT()
+            so.numSplits = 2
+            g.op(gm.BO.SPLIT, [ax, x], [y, y2], gm.OPT.SplitOptions, so)
+        g.io([x, f], [y, fo], sig="serving_default")
+        try:
+            mbi = g.bytes()
+            qi = quantizer.Quantizer(mbi, copy.deepcopy(pl.shipped_recipes()[1][1]))
+            smp = [{"in0": np.arange(8, dtype=np.int32).reshape(2, 4), "in1": np.linspace(-1, 1, 8, dtype=np.float32).reshape(2, 4)}]
+            cr = qi.calibrate(smp) if qi.need_calibration else None
+            qi.quantize(cr)
+        except Exception:  # noqa: BLE001
+            pass
+
+
 def fresh_hash(mb, rec, cr):
     try:
         q = quantizer.Quantizer(mb, copy.deepcopy(rec))
@@ -340,6 +392,22 @@ def _history_case(ctx, drv, rng, i, n_sub):
             pass
         if bytes(mb) != mb_before:
             return fail("the model bytes were modified", "model-mutated")
+    if last is not None and not any(str(a_).startswith("policy") for _, a_ in log):   # (the policy is process-global by design)
+        # "same arguments => same bytes" holds whatever ELSE this process has quantized in the meantime: other models -- with integer data
+        # paths through RESHAPE / TRANSPOSE / STRIDED_SLICE / SPLIT / MEAN, whose non-float operands the algorithms skip -- go through
+        # calibrate() and quantize() on objects of their own; then a fresh object repeats the last call of this history
+        other_models_in_this_process(rng)
+        ctx.tag("other_models_quantized_in_between")
+        os.environ.pop(ENVVAR, None)
+        if last[3]:
+            os.environ[ENVVAR] = "0"
+        try:
+            again = fresh_hash(mb, last[0], last[1])
+        finally:
+            os.environ.pop(ENVVAR, None)
+        if again is not None and again != last[2]:
+            return fail(f"quantize() with the same model, recipe and statistics gives another result after OTHER models were quantized in this "
+                        f"process ({last[2][:20]} before, {again[:20]} after)", "process-history-dependent")
     if i % 3 == 1 and shared_cr:
         # a calibration result that went through json (python floats and nested lists instead of float32 arrays) is the caller's object
         # like any other: quantize() and a resumed calibrate() must leave it exactly as it was (types included)
